@@ -397,6 +397,15 @@ class Repo:
             body[0].value, ast.Constant
         ):
             return True, body[0].value.value
+        # `return self.<CLASS_LEVEL_CONSTANT>`: the constant found first in the MRO of the concrete class
+        if len(body) == 1 and isinstance(body[0], ast.Return) and isinstance(body[0].value, ast.Attribute) \
+                and isinstance(body[0].value.value, ast.Name) and body[0].value.value.id in ("self", "cls"):
+            attr = body[0].value.attr
+            for k in self.mro(c):
+                if attr in k.attrs:
+                    if isinstance(k.attrs[attr], ast.Constant):
+                        return True, k.attrs[attr].value
+                    return False, f"class attribute {attr} is not a constant"
         if _is_abstractmethod(f.node):
             return False, "abstract"
         return False, "non-constant getter"
